@@ -292,6 +292,28 @@ def run(ctx):
                 ctx.broken("R03.5", f, "env-verbatim", "cannot identify the stored expression at line %s" % e3.get("ln"), (f, e3.get("ln")))
                 continue
             okc, why = valueflow.carrier(f, target, src, out_param_ok)
+            if not okc and k == "multi_option":
+                # a list element is the piece of the variable between two separators: `v.substr(b, e - b)` with e = v.find(';', b) (or v.size())
+                t0 = ir.unwrap(target)
+                if isinstance(t0, dict) and t0.get("k") == "call" and short(t0.get("name") or "") == "substr" and t0.get("this") is not None and valueflow.carrier(f, t0["this"], src, out_param_ok)[0]:
+                    a = [x0 for x0 in t0.get("args", []) if not (isinstance(x0, dict) and x0.get("k") == "defarg")]
+                    vtxt = fmt(ir.unwrap(t0["this"]))
+                    b0 = ir.unwrap(a[0]) if a else None
+                    piece = isinstance(b0, dict) and b0.get("k") == "ref" and str(b0.get("decl", "")).startswith("local:")
+                    if piece and len(a) == 2:
+                        bo2 = ir.as_binop(ir.unwrap(a[1]))
+                        e0 = ir.unwrap(bo2[1]) if bo2 and bo2[0] == "-" and fmt(ir.unwrap(bo2[2])) == fmt(b0) else None
+                        piece = isinstance(e0, dict) and e0.get("k") == "ref" and str(e0.get("decl", "")).startswith("local:")
+                        if piece:
+                            for kind2, val2, _n2 in valueflow.local_defs(f, e0["decl"][6:]):
+                                v2 = ir.unwrap(val2) if val2 is not None else None
+                                is_find = isinstance(v2, dict) and v2.get("k") == "call" and short(v2.get("name") or "") in ("find", "find_first_of") and v2.get("this") is not None and fmt(ir.unwrap(v2["this"])) == vtxt \
+                                    and v2.get("args") and (literal_value(v2["args"][0]) in (("char", ord(";")), ("str", ";")))
+                                is_size = isinstance(v2, dict) and v2.get("k") == "call" and short(v2.get("name") or "") in ("size", "length") and v2.get("this") is not None and fmt(ir.unwrap(v2["this"])) == vtxt
+                                if kind2 not in ("init", "assign") or not (is_find or is_size):
+                                    piece = False
+                    if piece:
+                        okc, why = True, ""
             ctx.check(okc, "R03.5", f, "env-verbatim",
                       "the value stored from the environment at line %s is not a verbatim copy of the variable: %s" % (e3.get("ln"), why),
                       (f, e3.get("ln")), why_ok=fmt(target))
